@@ -384,6 +384,33 @@ def _task_one(task):
     return t
 
 
+def _task_own_root(task):
+    """A definition object whose root container is not the conventional one (named when it was loaded): create_dataset(files, definition) uses
+    the definition as it is - its rows are what the definition's own generator yields - also when a container of the conventional name exists."""
+    from mc.spec import Container, Doc, IntEnc, Param, PType, header_entries, header_params, header_ptypes
+    t = Tally()
+    work = task["work"]
+    os.makedirs(work, exist_ok=True)
+    pts = tuple(header_ptypes()) + (PType("OB_T", "Integer", IntEnc(8)), PType("OW_T", "Integer", IntEnc(16, "twosComplement")))
+    prs = tuple(header_params()) + (Param("HI", "OB_T"), Param("LO", "OB_T"), Param("WORD", "OW_T"))
+    for with_conventional in (True, False):
+        conts = (Container("Telemetry", tuple(header_entries()) + (("p", "HI"), ("p", "LO"))),)
+        if with_conventional:
+            conts += (Container("CCSDSPacket", tuple(header_entries()) + (("p", "WORD"),)),)
+        doc = Doc(pts, prs, conts, root="Telemetry")
+        defn = load_doc(doc)
+        pkts = [framing.mk_packet(bytes([0xFF, 0xD6]), apid=9, seqcount=1), framing.mk_packet(bytes([0x01, 0x02]), apid=9, seqcount=2)]
+        path = os.path.join(work, f"c18r_{os.getpid()}.bin")
+        with open(path, "wb") as f:
+            f.write(b"".join(pkts))
+        for use_raw in (False, True):
+            check_dataset(t, defn, doc, [path], pkts, use_raw, {"variant": "definition with its own root container", "conventional_root_also_defined": with_conventional,
+                                                                "use_raw_values": use_raw, "own_root": True, "packets": [p.hex() for p in pkts]}, False)
+        os.unlink(path)
+    t.nontrivial += 2
+    return t
+
+
 def _task_many_files(task):
     """A long file list (a day of one-file-per-pass data): more files than the process may hold open at once.  The soft descriptor limit is
     lowered for the duration of the call, as it is on machines with the customary limits of 256 or 1024."""
@@ -432,6 +459,7 @@ def run(ctx):
     tasks = [{"kinds": g, "work": ctx.work, "max_len": 3 if ctx.quick else 4} for g in groups if g]
     tally = fan_out(_task, tasks, jobs=ctx.jobs, seed=ctx.seed)
     tally.merge(fan_out(_task_many_files, [{"work": ctx.work, "n_files": n} for n in ((300,) if ctx.quick else (300, 1100))], jobs=2, seed=ctx.seed))
+    tally.merge(_task_own_root({"work": ctx.work}))
     coverage = {
         "programs": tally.programs,
         "exhaustive": True,
@@ -448,6 +476,10 @@ def run(ctx):
 
 
 def replay(case):
+    if case.get("own_root"):
+        from mc import VERIF_ROOT
+        t = _task_own_root({"work": os.path.join(VERIF_ROOT, ".work")})
+        return t.violations[0] if t.violations else None
     import os as _os
     if case.get("many_files"):
         t = _task_many_files({"work": _os.path.join(_os.path.dirname(_os.path.dirname(_os.path.dirname(_os.path.abspath(__file__)))), ".work"), "n_files": case["many_files"]})
